@@ -126,6 +126,7 @@ def cell_card(c, deck):
     else:
         parts.append('%d %s' % (c['mat'], c['rhotxt'] or '-1.0'))
     parts.append(render_geom(c['geom']))
+    nfixed = len(parts)
     parts += list(c.get('kw_front', []))       # cell parameters the conversion has no use for (VOL, NONU, TMP, ...)
     paramcards = bool(deck.get('paramcards'))     # U and FILL given on data cards (one entry per cell) instead
     if c['u'] and not paramcards:
@@ -135,7 +136,7 @@ def cell_card(c, deck):
         parts.append('lat=%d' % c['lat'])
     if c['lat'] and c['lranges'] and not c.get('latopt'):
         rng = ' '.join('%d:%d' % (a, b) for a, b in c['lranges'])
-        fill = 'fill=%s %s' % (rng, ' '.join(str(u) for u in c['lunivs']))
+        fill = 'fill=%s %s' % (rng, ' '.join(_array_tokens(c['lunivs'], c.get('arrayshort'))))
         if c['hasftr']:
             fill += ' ' + _tr_inline(c['ftr'], c['ftrspell'], deck)
             if c['ftrspell'].startswith('star'):
@@ -160,7 +161,28 @@ def cell_card(c, deck):
     elif c.get('impsrc') == 'cellmulti':
         parts.append(c['imptxt'])
     parts += list(c.get('kw_back', []))
+    if c.get('kwshuffle') is not None:
+        # the keywords of a cell card may come in any order
+        kws = parts[nfixed:]
+        random.Random(c['kwshuffle']).shuffle(kws)
+        parts = parts[:nfixed] + kws
     return wrap_card(' '.join(parts))
+
+
+def _array_tokens(univs, short):
+    """Entries of a FILL array, runs of equal universes optionally written with the nR shorthand ('2 3r')."""
+    if not short:
+        return [str(u) for u in univs]
+    out, i = [], 0
+    while i < len(univs):
+        j = i
+        while j + 1 < len(univs) and univs[j + 1] == univs[i]:
+            j += 1
+        out.append(str(univs[i]))
+        if j > i:
+            out.append('%dr' % (j - i) if j - i > 1 else 'r')
+        i = j + 1
+    return out
 
 
 def _tr_inline(tr, spell, deck):
